@@ -827,6 +827,10 @@ def _pubkeys(run, F, PV):
     fn = P.func("admin.pubkeys.do_get_pubkeys")
     g = A.cfg(fn, None)
     st = [n for n in A.own_nodes(fn) if isinstance(n, ast.Assign) and norm(n.targets[0]).startswith("pubkeys[")]
+    # (the rule reads the gathering as a dict keyed by path name; gathered any other way - a list of records, say - it is not understood, which is
+    # not the same as wrong)
+    run.require(len(st) >= 1 or any(isinstance(n, ast.Assign) and norm(n.targets[0]) == "pubkeys" for n in A.own_nodes(fn)),
+                "do_get_pubkeys: the public keys are not gathered in a dict `pubkeys[name] = ..` (idiom not understood)")
     run.check("R4", len(st) == 1, "one store into pubkeys", key="do_get_pubkeys|stores", where=fn.loc(), message=f"{len(st)} stores into pubkeys")
     for s in st:
         for sn in g.nodes_of(s):
